@@ -12,14 +12,15 @@ Fixpoint wfn (t : nty) : bool :=
   | NName _ args => forallb wfn args
   | NList items => forallb wfn items
   | NUnion items => (2 <=? List.length items) && forallb (fun x => wfn x && negb (is_union x)) items
+  | NQuoted n => wfn n
   | NEll | NLit _ => true
   end.
 
-Definition head_ok (t : tok) : bool := match t with KName _ | KLB | KEll | KLit _ => true | _ => false end.
+Definition head_ok (t : tok) : bool := match t with KName _ | KLB | KEll | KLit _ | KQ => true | _ => false end.
 
 Lemma pr_head : forall t, wfn t = true -> exists x r, pr t = x :: r /\ head_ok x = true.
 Proof.
-  fix IH 1. intros [n args|items|items| |s] H; simpl in *.
+  fix IH 1. intros [n args|items|items|q| |s] H; simpl in *.
   - unfold subscript. destruct (map pr args); eexists; eexists; split; reflexivity.
   - eexists; eexists; split; reflexivity.
   - cbn [wfn] in H. apply andb_true_iff in H as [Hlen H]. destruct items as [|a l]; [discriminate Hlen|].
@@ -28,9 +29,10 @@ Proof.
     destruct (map pr l); simpl; eexists; eexists; split; try reflexivity; exact Hx.
   - eexists; eexists; split; reflexivity.
   - eexists; eexists; split; reflexivity.
+  - eexists; eexists; split; reflexivity.
 Qed.
 
-Definition ok_rest (rest : list tok) : bool := match rest with [] | KRB :: _ | KComma :: _ => true | _ => false end.
+Definition ok_rest (rest : list tok) : bool := match rest with [] | KRB :: _ | KComma :: _ | KQ :: _ => true | _ => false end.
 Definition no_lb (rest : list tok) : bool := match rest with KLB :: _ => false | _ => true end.
 
 Definition jc (l : list nty) : list tok := join_with KComma (map pr l).
@@ -56,8 +58,8 @@ Proof.
   induction f as [|f [IH1 IH2]]; [split; intros; lia|].
   (* atoms, with whatever follows as long as it is not '[' *)
   assert (ATOM : forall a rest, wfn a = true -> is_union a = false -> 2 * List.length (pr a) < S f -> no_lb rest = true ->
-                 p_atom (p_exprs f) (pr a ++ rest) = Some (a, rest)).
-  { intros [n args|items|items| |s] rest Hw Hu Hl Hr; simpl in *; try discriminate; try reflexivity.
+                 p_atom (p_expr f) (p_exprs f) (pr a ++ rest) = Some (a, rest)).
+  { intros [n args|items|items|q| |s] rest Hw Hu Hl Hr; simpl in *; try discriminate; try reflexivity.
     - destruct args as [|x args].
       + simpl. destruct rest as [|[]]; simpl in *; try reflexivity; discriminate.
       + rewrite sub_cons in *. cbn [List.length] in Hl. rewrite app_length in Hl. cbn [List.length] in Hl.
@@ -76,11 +78,15 @@ Proof.
         rewrite Ej in *.
         assert (Hlen : 2 * List.length (tk :: r2) + 1 < f) by (rewrite app_length in Hl; simpl in Hl; simpl; lia).
         specialize (G Hlen). cbn [app] in G.
-        unfold p_atom. destruct tk; simpl in Htk; try discriminate; cbn [app]; rewrite G; reflexivity. }
+        unfold p_atom. destruct tk; simpl in Htk; try discriminate; cbn [app]; rewrite G; reflexivity.
+    - (* quoted *)
+      rewrite <- app_assoc. cbn [app].
+      rewrite IH1; [reflexivity|exact Hw| |reflexivity].
+      rewrite app_length in Hl. simpl in Hl. lia. }
   split.
   - intros t rest Hw Hl Hr.
     destruct (is_union t) eqn:Hu.
-    + destruct t as [| |items| |]; try discriminate. cbn [wfn] in Hw.
+    + destruct t as [| |items| | |]; try discriminate. cbn [wfn] in Hw.
       apply andb_true_iff in Hw as [Hlen Hw].
       destruct items as [|a [|b l]]; try discriminate Hlen.
       cbn [forallb] in Hw. apply andb_true_iff in Hw as [Ha Hbl].
@@ -123,12 +129,14 @@ Lemma ty_ind' (P : ty -> Prop) :
   (forall n r args, Forall P args -> P (UName n r args)) ->
   (forall items, Forall P items -> P (UList items)) ->
   (forall items, Forall P items -> P (UUnion items)) ->
+  (forall u, P u -> P (UQuoted u)) ->
   P UEll -> (forall s, P (ULit s)) -> forall t, P t.
 Proof.
-  intros H1 H2 H3 H4 H5. fix IH 1. intros [n r args|items|items| |s].
+  intros H1 H2 H3 H6 H4 H5. fix IH 1. intros [n r args|items|items|u| |s].
   - apply H1. induction args; constructor; [apply IH|assumption].
   - apply H2. induction items; constructor; [apply IH|assumption].
   - apply H3. induction items; constructor; [apply IH|assumption].
+  - apply H6, IH.
   - exact H4.
   - apply H5.
 Qed.
@@ -137,16 +145,17 @@ Definition atomic (x : nty) : bool := wfn x && negb (is_union x).
 
 Lemma items_atomic : forall n, wfn n = true -> forallb atomic (items_of n) = true /\ items_of n <> [].
 Proof.
-  intros [n args|items|items| |s] H; unfold atomic.
+  intros [n args|items|items|q| |s] H; unfold atomic.
   - cbn [items_of forallb is_union negb]. rewrite H. split; [reflexivity|discriminate].
   - cbn [items_of forallb is_union negb]. rewrite H. split; [reflexivity|discriminate].
   - cbn [wfn] in H. apply andb_true_iff in H as [Hl H]. split; [exact H|]. destruct items; [discriminate Hl|discriminate].
+  - cbn [items_of forallb is_union negb]. rewrite H. split; [reflexivity|discriminate].
   - split; [reflexivity|discriminate].
   - split; [reflexivity|discriminate].
 Qed.
 
 Lemma jb_items : forall n, jb (items_of n) = pr n.
-Proof. intros [n args|items|items| |s]; reflexivity. Qed.
+Proof. intros [n args|items|items|q| |s]; reflexivity. Qed.
 
 Lemma pr_mk_union : forall l, pr (mk_union l) = jb l.
 Proof. intros [|x [|y l]]; reflexivity. Qed.
@@ -189,15 +198,24 @@ Proof. induction 1; simpl; congruence. Qed.
 
 Lemma print_norm : forall t, wf_ty t = true -> print_ty t = pr (norm t) /\ wfn (norm t) = true.
 Proof.
-  induction t as [n r args IH|items IH|items IH| |s] using ty_ind'; intros H.
+  induction t as [n r args IH|items IH|items IH|u IHu| |s] using ty_ind'; intros H.
   - cbn [wf_ty] in H. apply andb_true_iff in H as [Ha Hr].
     assert (E : map print_ty args = map pr (map norm args) /\ forallb wfn (map norm args) = true).
     { clear Hr. induction IH as [|a l Pa _ IHl]; [split; reflexivity|].
       simpl in Ha. apply andb_true_iff in Ha as [Ha1 Ha2]. destruct (Pa Ha1) as [P1 P2]. destruct (IHl Ha2) as [Q1 Q2].
       simpl. rewrite P1, P2, Q1, Q2. split; reflexivity. }
-    destruct E as [E1 E2]. cbn [print_ty norm]. rewrite E1.
+    assert (Q : map (fun a => match a with UQuoted u => KQ :: print_ty u ++ [KQ] | _ => print_ty a end) args
+                = map pr (map (fun a => match a with UQuoted u => NQuoted (norm u) | _ => norm a end) args) /\
+                forallb wfn (map (fun a => match a with UQuoted u => NQuoted (norm u) | _ => norm a end) args) = true).
+    { clear Hr E. induction IH as [|a l Pa _ IHl]; [split; reflexivity|].
+      simpl in Ha. apply andb_true_iff in Ha as [Ha1 Ha2]. destruct (Pa Ha1) as [P1 P2]. destruct (IHl Ha2) as [Q1 Q2].
+      cbn [map forallb]. rewrite Q1, Q2.
+      destruct a; try (rewrite P1, P2; split; reflexivity).
+      cbn [print_ty norm] in P1, P2. cbn [pr wfn]. rewrite P1, P2. split; reflexivity. }
+    destruct Q as [Q1 Q2].
+    destruct E as [E1 E2]. cbn [print_ty norm]. rewrite E1, Q1.
     destruct r as [| | |new].
-    + split; [reflexivity|exact E2].
+    + split; [reflexivity|exact Q2].
     + destruct (jb_flat _ E2) as (J1 & J2 & J3).
       split.
       * rewrite pr_mk_union, J1. reflexivity.
@@ -210,7 +228,7 @@ Proof.
         -- apply wfn_mk_union; [intro X; apply app_eq_nil in X as [_ X]; discriminate|].
            rewrite forallb_app, A1. reflexivity.
       * split; reflexivity.
-    + split; [reflexivity|exact E2].
+    + split; [reflexivity|exact Q2].
   - cbn [wf_ty] in H.
     assert (E : map print_ty items = map pr (map norm items) /\ forallb wfn (map norm items) = true).
     { induction IH as [|a l Pa _ IHl]; [split; reflexivity|].
@@ -227,6 +245,7 @@ Proof.
     split.
     + rewrite pr_mk_union, J1. reflexivity.
     + apply wfn_mk_union; [|exact J2]. apply J3. destruct items; [discriminate Hr|discriminate].
+  - cbn [wf_ty] in H. apply andb_true_iff in H as [H _]. cbn [print_ty norm]. exact (IHu H).
   - split; reflexivity.
   - split; reflexivity.
 Qed.
